@@ -55,9 +55,41 @@ def vlineOfRow (names : List String) (r : Row) : List String :=
   (r.cells.zip names).filterMap (fun (c, n) => match c with
     | .t => some n | .any => some (n ++ "*") | .f => none)
 
+/-- C20 through the binary: with `-c true` the printed table describes a function implied by the
+formula, with `-c false` one that implies it; the rows shown are the filter's, disjoint, and (for
+filter Any) cover every assignment -/
+def retainOracle (f : Formula) (cols : List Nat) (o : Options) (rows : List Row) : Option String :=
+  if o.retain == .any || o.benchmark == some 0 || o.model then none else
+  let U := sortNats (dedup (SemExec.allVars f ++ cols))
+  if U.length > 10 then none else
+  match SemExec.semTT U (2 ^ U.length + 2) (modelFuel f) f [] with
+  | none => none
+  | some tt =>
+    let value := fun (mask : Nat) =>
+      let full := (U.zipIdx).foldl (fun acc (v, i) => match cols.idxOf? v with
+        | some j => if mask.testBit j then acc ||| (1 <<< i) else acc
+        | none => acc) 0
+      tt.getD full false
+    if rows.any (fun r => r.cells.length != cols.length) then some "a row has the wrong number of cells" else
+    let masks := List.range (2 ^ cols.length)
+    let dirTrue := o.retain == .true_
+    match masks.find? (fun m =>
+      let cov := rows.filter (fun r => rowCovers r m)
+      cov.length > 1 ||
+      cov.any (fun r => !(Filter.passes o.filter r.result)) ||
+      (o.filter == .any && cov.length != 1) ||
+      -- direction: -c true: formula ⇒ printed function; -c false: printed function ⇒ formula
+      cov.any (fun r => if dirTrue then (value m && !r.result) else (r.result && !(value m))) ||
+      -- a satisfying (resp. falsifying) assignment must be shown when the filter shows such rows
+      (dirTrue && value m && o.filter != .false_ && cov.isEmpty) ||
+      (!dirTrue && !(value m) && o.filter != .true_ && cov.isEmpty)) with
+    | some m => some s!"-c {repr o.retain} -f {repr o.filter}: assignment {m} of the columns is covered by rows with results {(rows.filter (fun r => rowCovers r m)).map (·.result)}; the formula's value there is {value m}"
+    | none => none
+
 /-- the table oracle: rows against the brute-force meaning of the formula -/
 def tableOracle (f : Formula) (cols : List Nat) (o : Options) (rows : List Row) : Option String :=
-  if o.retain != .any || o.benchmark == some 0 then none else
+  if o.retain != .any then retainOracle f cols o rows else
+  if o.benchmark == some 0 then none else
   let U := sortNats (dedup (SemExec.allVars f ++ cols))
   if U.length > 10 then none else
   match SemExec.semTT U (2 ^ U.length + 2) (modelFuel f) f [] with
